@@ -65,6 +65,9 @@ def configs(tier, seed):
     # granules wider than one bit together with read_on_resp (the forwarding network has its own mask expansion)
     out.append(_mk(True, True, 1, 1, 2, 6 if q else 9, width=4))
     out.append(_mk(False, True, 1, 1, 2, 6 if q else 9, width=4))
+    # granularity on the ILVT-based memory types behind a transparent bank (their bypass has its own enable / mask registers)
+    out.append(_mk(True, False, 1, 1, 1, 6 if q else 8, mem="MultiportXORILVTMemory"))
+    out.append(_mk(True, True, 1, 1, 2, 5 if q else 8, width=4, mem="MultiportOneHotILVTMemory"))
     # three write ports (not a power of two) on the ILVT-based memory types
     out.append(_mk(False, False, 1, 3, None, 6 if q else 8, mem="MultiportXORILVTMemory"))
     if q:
